@@ -73,7 +73,7 @@ def lang_jobs(acc, cap, fullcap, with_error=False, budget=60, extra=None):
     jobs = []
     for c in acc:
         alpha = [i + 2 for i in range(len(c["terms"]))]
-        if with_error:
+        if with_error(c) if callable(with_error) else with_error:
             alpha = [1] + alpha
         k = maxlen_for(len(alpha), cap)
         fk = min(k, maxlen_for(len(alpha), fullcap))
@@ -368,15 +368,26 @@ def c16(tier):
         a = json.loads(json.dumps(c)); a["bounds"] = True; a["id"] = c["id"] + "+b"
         b = json.loads(json.dumps(c)); b["bounds"] = False; b["id"] = c["id"] + "-b"
         cases += [a, b]
+    # grammars with @error productions, driven with non-sentences and lexer ERROR tokens too: the spans of the
+    # reductions made during and after a recovery (judged locally, from the leaves of the value handed to _onBounds)
+    nof = lambda cs: [c for c in cs if not any(T["k"] == "starF" for r in c["rules"] for p in r["prods"] for T in p["terms"])]
+    errg = nof(grams.curated("err")) + nof(grams.random_grammars(seed() + 116, 30 if quick else 120, prefix="rnd16e", sugar=0.3, err=0.15))
+    for c in errg:
+        e = json.loads(json.dumps(c)); e["bounds"] = True; e["errin"] = True; e["id"] = c["id"] + "+be"
+        cases.append(e)
     cases = replay_filter(cases)
-    X = explore(rep, sc, cases, lambda c: ["c16"] if c["bounds"] else ["c03", "c16n"],
-                300 if quick else 900, 300 if quick else 900, False, rng, 10 if quick else 40)
+    # the local predicate reads spans off the leaves of the values; @list drops its separators from the value, so a
+    # grammar with @list is judged by the tree spans (sentences) only
+    haslist = lambda c: any(T["k"] in ("list", "listopt") for r in c["rules"] for p in r["prods"] for T in p["terms"])
+    X = explore(rep, sc, cases, lambda c: (["c16"] if haslist(c) else ["c16", "c16e"]) if c["bounds"] else ["c03", "c16n"],
+                300 if quick else 900, 300 if quick else 900, lambda c: bool(c.get("errin")), rng, 10 if quick else 40, budget=80)
     acc, truns = X["acc"], X["truns"]
     for b in X["bad"]:
         run, c = truns[b["r"]], acc[b["c"]]
         if b["bad"] == ["amb"]:
             continue
-        kind = "bounds-differ" if "c16" in b["bad"] else ("called-without-method" if "c16n" in b["bad"] else "presence-changes-parse")
+        kind = "bounds-differ" if "c16" in b["bad"] else ("bounds-not-first-last-leaf" if "c16e" in b["bad"] else (
+            "called-without-method" if "c16n" in b["bad"] else "presence-changes-parse"))
         rep.failure("c16.%s:%s" % (kind, c["id"]),
                     "grammar %s, sentence %s: recorded action/_onBounds calls differ from the tree spans" % (c["id"], run["w"]),
                     replay_of(c, run["w"], {"recorded": [e for e in run["events"] if e["e"] in ("act", "bounds")], "expected": b.get("exp")}))
